@@ -376,7 +376,7 @@ def run(chk, replay_path):
         raise vc.Infra("FixedVector model exported only %d edges" % len(g.edges))
     chk.exhaustive = True
     chk.bounds["model"] = "2 containers, capacities %s, values %s, list arguments up to 2; all operation histories" % (
-        ("{0,1,2}", "{1,2}") if tier == "quick" else ("{0,1,2,3}", "{1,2,3}"))
+        ("{0,1,2}", "{1,2}") if tier == "quick" else ("{0,1,2,3}", "{1,2}"))
     replay(chk, exe, g, "copy", (lambda a: True) if has_lv else (lambda a: a["op"] != "InsertCopy"), 2, "tour_copy")
     replay(chk, exe, g, "move", lambda a: a["op"] in MOVE_OPS, 2, "tour_move")
     record(chk, exe, has_lv, 600 if tier == "quick" else 8000)
